@@ -77,11 +77,12 @@ class World:
         # a seeded TransformedModel (Hs-steepness model seen in Hs-Tz): its Monte-Carlo queries must be repeatable and leave it unchanged
         from . import c16
         _, self.TM, _ = c16.build("windmeier", 0.1, 5)
+        _, self.TM0, _ = c16.build("windmeier", 0.1, 0)       # seed 0 is a seed like any other (falsy in python)
 
     def snapshot_parts(self, digits=None):
         parts = {"A": self.A, "A3": self.A3, "X": self.X, "X3": self.X3, "Xneg": self.Xneg, "P": self.P,
                  "options": [self.limits, self.limits_rev, self.limits_arr, self.deltas, self.steps, self.sem], "S": self.S, "D": self.D, "T": self.T,
-                 "W": self.W, "B": self.B, "B2": self.B2, "Bdesc": self.Bdesc, "B2desc": self.B2desc, "TM": self.TM}
+                 "W": self.W, "B": self.B, "B2": self.B2, "Bdesc": self.Bdesc, "B2desc": self.B2desc, "TM": self.TM, "TM0": self.TM0}
         out = {k: history.digest(v, digits if k in ("W", "B", "B2", "Bdesc", "B2desc") else None) for k, v in parts.items()}
         out["process_globals"] = _globals_digest()
         return out
@@ -281,7 +282,8 @@ EVENTS = {
                                    _res(w.A3.draw_sample(20, random_state=3)))),
     "transformed_model_queries": ("eval", lambda w: (_res(w.TM.marginal_icdf(np.array([0.5, 0.9]), 1)),
                                                      _res(IFORMContour(w.TM, 0.05, n_points=4).coordinates),
-                                                     _res(w.TM.pdf(w.X[:2])))),
+                                                     _res(w.TM.pdf(w.X[:2])),
+                                                     _res(w.TM0.marginal_icdf(np.array([0.5, 0.9]), 1)))),
     "getter_again": ("getter", None),
     "fit_B": ("fitB", None),
     "fit_B2": ("fitB2", None),
